@@ -134,6 +134,7 @@ type exchange struct {
 	chunked  bool
 	pieces   []int // split of the body into writes
 	newConn  bool
+	stallUpload     bool // at abortUploadAt the client stops sending but keeps its connection open
 	abortUploadAt   int // -1: no
 	abortDownloadAt int // -1: no; close after this many body bytes
 	noRead   bool
@@ -461,6 +462,11 @@ func (b *sBackend) play(c net.Conn, req *http.Request, ex *exchange) bool {
 	case "garbage":
 		io.WriteString(c, "HTZP/9.9 2OO what\r\n\x00\xff\r\n\r\n")
 		return false
+	case "odd-status":
+		// well-formed, but no status code a server may send: net/http's transport accepts it,
+		// net/http's server refuses to write it (it panics, which ends this one exchange)
+		io.WriteString(c, "HTTP/1.1 099 Odd\r\nContent-Length: 0\r\n\r\n")
+		return true
 	}
 	for _, code := range rs.interim {
 		io.WriteString(c, statusLine(code)+"Link: </style.css>; rel=preload\r\n\r\n")
@@ -704,8 +710,10 @@ func (c *sClient) runOnce(ex *exchange) {
 						conn.Write(p[:k])
 					}
 				}
-				conn.Close() // client goes away mid-upload
-				return false
+				if !ex.stallUpload {
+					conn.Close() // client goes away mid-upload
+				}
+				return false // (stalled: it just never sends the rest)
 			}
 			var err error
 			if ex.chunked {
